@@ -211,6 +211,22 @@ def removed_phase(run, d, bins, cases_unused):
     run.cov["of_which_with_causaloids_added_after_the_removals"] = sum(1 for c in cases if c.fam == "causalrm2")
 
 
+def readers_phase(run, bins):
+    """READERS AGAINST AN EVALUATOR (harness family causalrd): while other threads only read is_active(), one thread evaluates a contextual
+    and a plain singleton alternately true / false and reads the flag back after every evaluation: it is the only writer, so the flag
+    must be the verdict just returned (activation mirrors the latest evaluation). Stress: the schedule is the OS's."""
+    if run.violations: return
+    ln = f"causalrd {400 if run.thorough else 150} 3"
+    rc, outs, err = run_lines(bins["release"], [ln], line_timeout=180)
+    run.cov["evaluations"] += 1
+    o = outs[0] if outs else "<no answer>"
+    if o.split() != ["0", "0"]:
+        run.violation({"kind": "property-oracle-failed-on-implementation", "why": f"one evaluating thread, three threads that only read is_active(): evaluations after which the activation flag was not the verdict "
+                       f"just returned (contextual singleton, plain singleton) = {o}; expected 0 0", "harness_line": ln, "expected": "0 0", "got": o, "big": True,
+                       "rerun": "cd /verif && python3 bin/check.py C11 --replay <this file>"})
+    run.cov["readers_against_evaluator"] = {"runs": 1, "answer": o}
+
+
 def empty_phase(run, d, bins, cases_unused):
     """EMPTY collections in every container: a recount over no members says all-active (vacuously), 0 active; reasoning is refused.
     The Coq model is for non-empty collections; the recount oracle is applied to the implementation's own output"""
@@ -239,7 +255,7 @@ def empty_phase(run, d, bins, cases_unused):
 
 
 def main():
-    run_property("C11", PROPS, gen_cases, CHECKS, RULE + " SECOND PHASE: graphs of singletons from which 1-2 causaloids were removed again (remove_causaloid) before reasoning, a quarter of them built in a graph object that had held a bigger, fully active model and was cleared: wrapper-active and the aggregates must equal a recount over the LIVE members (oracle on the implementation's own output; the Coq model covers add-only graphs). THIRD PHASE: empty collections in the five containers (recount over no members)", cross=empty_phase)
+    run_property("C11", PROPS, gen_cases, CHECKS, RULE + " SECOND PHASE: graphs of singletons from which 1-2 causaloids were removed again (remove_causaloid) before reasoning, a quarter of them built in a graph object that had held a bigger, fully active model and was cleared: wrapper-active and the aggregates must equal a recount over the LIVE members (oracle on the implementation's own output; the Coq model covers add-only graphs). THIRD PHASE: empty collections in the five containers (recount over no members)", cross=lambda run, d, bins, cases: (empty_phase(run, d, bins, cases), readers_phase(run, bins)))
 
 
 _replay = mk_replay("C11", CHECKS)
